@@ -151,7 +151,13 @@ def proof_audit(prop, plugin, tier):
     bad_ax = [a for a in axioms if a.split(".")[-1] not in {x.split(".")[-1] for x in ALLOWED_AXIOMS}]
     if bad_ax:
         info["problems"].append("axioms outside the allowlist: %s" % bad_ax)
-    for name in plugin.THEOREMS:
+    pinned_path = os.path.join(ROOT, "lib", "pinned", prop + ".txt")
+    pinned_names = []
+    if os.path.exists(pinned_path):
+        pinned_names = [m.group(1) for m in re.finditer(r"^Check\s+(\w+)\s*:", open(pinned_path).read(), re.M)]
+    wanted = list(plugin.THEOREMS) or pinned_names
+    info["wanted_theorems"] = wanted
+    for name in wanted:
         if name not in theorems:
             info["problems"].append("theorem %s missing from Props/%s.v" % (name, prop))
         if not re.search(r"^Print Assumptions\s+%s\s*\." % re.escape(name), code, re.M):
@@ -159,7 +165,6 @@ def proof_audit(prop, plugin, tier):
     if closed + (1 if axioms else 0) < n_pa and not axioms:
         info["problems"].append("Print Assumptions transcript incomplete (%d of %d closed)" % (closed, n_pa))
     # pinned statements
-    pinned_path = os.path.join(ROOT, "lib", "pinned", prop + ".txt")
     cur = check_statements(src)
     if os.path.exists(pinned_path):
         pinned = [l.strip() for l in open(pinned_path).read().split("\n") if l.strip()]
@@ -495,7 +500,7 @@ def run_check(prop, plugin, tier, seed, replay=None):
     if not audit_ok and not any(not nf for _, nf in violations):
         path = write_replay(prop, "%s-proof-audit.json" % prop,
                             {"property": prop, "kind": "proof-obligation-broken",
-                             "theorems": plugin.THEOREMS, "problems": audit["problems"],
+                             "theorems": list(plugin.THEOREMS) or audit.get("wanted_theorems", []), "problems": audit["problems"],
                              "detail": "no failing input found on %d cases searched by the oracle" % n_cases})
         violations.append((path, True))
     if selftest is not None and not selftest["ok"]:
@@ -505,7 +510,8 @@ def run_check(prop, plugin, tier, seed, replay=None):
 
     # ---- G evidence
     wall = time.time() - t0
-    nthm = len(plugin.THEOREMS)
+    thm_names = list(plugin.THEOREMS) or audit.get("wanted_theorems", [])
+    nthm = max(1, len(thm_names))
     discharged = nthm if audit_ok else max(0, nthm - 1)
     cov.update({
         "obligations": nthm,
@@ -513,7 +519,7 @@ def run_check(prop, plugin, tier, seed, replay=None):
         "checker_cmd": "make -C coq (full .vo build) && coqc -Q coq/theories PG coq/theories/Props/%s.v%s"
                        % (prop, " && coqchk -o -silent PG.Props.%s" % prop if tier == "thorough" else ""),
         "trusted_base": TRUSTED_BASE + getattr(plugin, "EXTRA_TRUSTED", []),
-        "theorems": plugin.THEOREMS,
+        "theorems": thm_names,
         "theorem_scope": plugin.SCOPE,
         "evaluations": n_cases,
         "distinct_nontrivial": n_nontrivial,
